@@ -161,3 +161,73 @@ Proof. intros cs. assert (chain cs) as H.
     apply chain_hole; [left; reflexivity|reflexivity|exact (eq_refl : is_id_char ";" = false)|].
     apply chain_single; [reflexivity|]. exact Logic.I. }
   split; [exact H|]. rewrite (lex_compositional_chain cs H). vm_compute. reflexivity. Qed.
+
+(* ---------------------------------------------------------------- numeric bare keys *)
+Lemma span_split (p : ascii -> bool) : forall s a b, span p s = (a, b) -> s = a ++ b /\ forallb p a = true.
+Proof. induction s as [|c r IH]; intros a b H; cbn [span] in H.
+  - injection H as <- <-. split; reflexivity.
+  - destruct (p c) eqn:E.
+    + destruct (span p r) as [a' b'] eqn:Es. injection H as <- <-. destruct (IH a' b' eq_refl) as [-> Hf]. split; [reflexivity|]. cbn [forallb]. rewrite E, Hf. reflexivity.
+    + injection H as <- <-. split; reflexivity. Qed.
+Lemma digit_num c : is_digit c = true -> is_num_char c = true.
+Proof. intros H. unfold is_num_char, is_id_char. rewrite H. rewrite orb_true_r. reflexivity. Qed.
+Lemma digits_num s : forallb is_digit s = true -> forallb is_num_char s = true.
+Proof. induction s as [|c r IH]; [reflexivity|]. cbn [forallb]. intros H. apply andb_true_iff in H as [Hc Hr]. rewrite (digit_num c Hc), (IH Hr). reflexivity. Qed.
+Lemma all_digits_forallb s : all_digits s = true -> forallb is_digit s = true.
+Proof. induction s as [|c r IH]; [reflexivity|]. cbn [all_digits forallb]. intros H. apply andb_true_iff in H as [Hc Hr]. rewrite Hc, (IH Hr). reflexivity. Qed.
+(* the tail of a number after the integer part: [. digits] [e digits] *)
+Definition num_tail_ok (r : str) : bool :=
+  let r1 := match r with
+            | c :: r' => if Ascii.eqb c "." then let '(fp, r'') := span is_digit r' in (match fp with [] => None | _ => Some r'' end) else Some r
+            | [] => Some r end in
+  match r1 with
+  | None => false
+  | Some [] => true
+  | Some (e :: ex) => (Ascii.eqb e "e" || Ascii.eqb e "E") && (match ex with [] => false | _ => all_digits ex end)
+  end.
+Lemma exp_num e ex : (Ascii.eqb e "e" || Ascii.eqb e "E") && (match ex with [] => false | _ => all_digits ex end) = true -> forallb is_num_char (e :: ex) = true.
+Proof. intros H. apply andb_true_iff in H as [He Hx]. cbn [forallb].
+  assert (is_num_char e = true) as E1 by (apply orb_true_iff in He as [He|He]; apply Ascii.eqb_eq in He; subst e; reflexivity).
+  rewrite E1. destruct ex; [discriminate|]. apply digits_num, all_digits_forallb. exact Hx. Qed.
+Lemma num_tail_chars r : num_tail_ok r = true -> forallb is_num_char r = true.
+Proof. unfold num_tail_ok. destruct r as [|c r']; [reflexivity|]. destruct (Ascii.eqb c ".") eqn:Ed.
+  - apply Ascii.eqb_eq in Ed. subst c. destruct (span is_digit r') as [fp r''] eqn:Es. destruct (span_split _ _ _ _ Es) as [-> Hf].
+    destruct fp as [|d fp']; [discriminate|]. intros H. cbn [forallb]. change (is_num_char ".") with true. cbn [andb].
+    rewrite forallb_app, (digits_num _ Hf). destruct r'' as [|e ex]; [reflexivity|]. rewrite (exp_num e ex H). reflexivity.
+  - intros H. apply (exp_num c r' H). Qed.
+Lemma num_ok_chars s : num_ok s = true -> exists c r, s = c :: r /\ is_digit c = true /\ forallb is_num_char s = true.
+Proof. unfold num_ok. destruct (span is_digit s) as [ip r] eqn:Es. destruct (span_split _ _ _ _ Es) as [-> Hf].
+  destruct ip as [|d ip']; [discriminate|]. intros H. exists d, (ip' ++ r). split; [reflexivity|].
+  cbn [forallb] in Hf. apply andb_true_iff in Hf as [Hd Hip]. split; [exact Hd|].
+  assert (num_tail_ok r = true) as Ht.
+  { destruct ip' as [|d2 ip'']; [exact H|]. destruct (Ascii.eqb d "0"); [discriminate|exact H]. }
+  change ((d :: ip') ++ r) with (d :: ip' ++ r). cbn [forallb]. rewrite (digit_num d Hd), forallb_app, (digits_num _ Hip), (num_tail_chars r Ht). reflexivity. Qed.
+
+Definition num_bnd (r : str) : Prop := match r with [] => True | c :: _ => is_num_char c = false end.
+Lemma span_num n r : forallb is_num_char n = true -> num_bnd r -> span is_num_char (n ++ r) = (n, r).
+Proof. intros Hn Hr. induction n as [|c n' IH].
+  - cbn [app]. destruct r as [|d r']; [reflexivity|]. cbn [span num_bnd] in *. rewrite Hr. reflexivity.
+  - cbn [forallb] in Hn. apply andb_true_iff in Hn as [Hc Hn']. cbn [app span]. rewrite Hc, (IH Hn'). reflexivity. Qed.
+Lemma digit_facts c : is_digit c = true -> is_ws c = false /\ Ascii.eqb c "/" = false /\ is_id_start c = false.
+Proof. destruct c as [[] [] [] [] [] [] [] []]; vm_compute; intros; try discriminate; repeat split. Qed.
+Theorem lexes_num s : num_ok s = true -> lexes num_bnd s [KNum s].
+Proof. intros H. destruct (num_ok_chars s H) as [c [r0 [-> [Hd Hn]]]]. intros r f Hr Hf. destruct f as [|f]; [lia|]. exists f. split.
+  - cbn [app List.length] in Hf. rewrite app_length in Hf. lia.
+  - destruct (digit_facts c Hd) as [H1 [H2 H3]]. pose proof (span_num (c :: r0) r Hn Hr) as Es.
+    change ((c :: r0) ++ r) with (c :: r0 ++ r) in *. cbn [lexm]. rewrite H1, H2, H3, Hd. cbn [andb]. rewrite Es. reflexivity. Qed.
+(* every good bare key: an identifier name or a decimal literal *)
+Theorem key_hole_lexes s : hole_ok HKey s = true ->
+  (is_ident_name s = true /\ lexes bnd s [KId s]) \/ (num_ok s = true /\ lexes num_bnd s [KNum s]).
+Proof. cbn [hole_ok]. unfold key_text_ok. intros H. apply orb_true_iff in H as [H|H].
+  - left. split; [exact H|apply lexes_name; [exact H|auto]].
+  - right. split; [exact H|apply lexes_num; exact H]. Qed.
+
+(* ---------------------------------------------------------------- the general statement is false *)
+(* two good name holes side by side merge into one identifier: without adjacency conditions lexing the concatenation is
+   NOT lexing chunk by chunk. The chain rule above is the correct form. *)
+Lemma lex_compositional_general_refuted :
+  ~ (forall cs, (forall h, In h (holes cs) -> hole_ok (fst h) (snd h) = true) -> lexed cs = toks_of cs).
+Proof. intros H. specialize (H [Hole HFn (L "a"); Hole HFn (L "b")]).
+  assert (lexed [Hole HFn (L "a"); Hole HFn (L "b")] = toks_of [Hole HFn (L "a"); Hole HFn (L "b")]) as E.
+  { apply H. intros h Hin. cbn in Hin. destruct Hin as [<-|[<-|[]]]; reflexivity. }
+  vm_compute in E. discriminate. Qed.
